@@ -17,7 +17,8 @@ RULE = ('Hypothesis draws a stylesheet composed of 2-5 observation templates tha
         'perturbation plan (per-thread start delay / yields). The shared compiled stylesheet and parsed source are used FOR THE FIRST TIME by the threads '
         '(lazy initialisation is what is at stake); each thread has its own XalanTransformer. Oracle: (1) ThreadSanitizer (happens-before) reports whose '
         'two accesses both lie in instrumented Xalan code; (2) every thread output byte-equal to the sequential output computed afterwards. '
-        'Non-trivial: >= 2 threads ran >= 2 transformations on a stylesheet using >= 1 lazily initialised facility. distinct = case text.')
+        'Non-trivial: >= 2 threads ran >= 2 transformations on a stylesheet using >= 1 lazily initialised facility. distinct = case text.'
+        ' Observers added later: three sorts that differ only in case-order over keys that differ only in case (driver under LC_ALL=en_US.UTF-8), number-to-string conversions, string literals used as numbers.')
 ASSUMPTIONS = ['ThreadSanitizer sees only instrumented code: synchronisation inside the uninstrumented system libxerces-c / ICU is visible only through '
                'intercepted pthread calls', 'the harness does not own the scheduler: interleavings are perturbed, not enumerated (see DESIGN section 6)']
 
